@@ -520,6 +520,20 @@ fn did_close(file: &str) -> Value {
 }
 
 fn req_params(kind: &str, file: &str, line: u32, col: u32, extra: &str) -> Value {
+    // a client that gets the parameters wrong (a plug-in, another protocol version): the request deserves an error
+    // response, the server deserves to live
+    match extra {
+        "malformed:empty" => return json!({}),
+        "malformed:null" => return Value::Null,
+        "malformed:types" => return json!({"textDocument": 5, "position": "here", "query": 1}),
+        "malformed:negative" => {
+            return json!({"textDocument": {"uri": uri(file)}, "position": {"line": -1, "character": -1}, "query": ""})
+        }
+        "malformed:uri" => {
+            return json!({"textDocument": {"uri": "not a uri"}, "position": {"line": line, "character": col}, "query": ""})
+        }
+        _ => {}
+    }
     let td = json!({"uri": uri(file)});
     let pos = json!({"line": line, "character": col});
     match kind {
@@ -1569,11 +1583,16 @@ pub fn gen_history(seed: u64, k: u64, max_events: usize) -> History {
         ]);
         match choice {
             7 => {
-                let e = rng.pick(&past_requests).clone();
+                let e = pick_earlier_request(&mut rng, &past_requests);
                 events.push(e);
             }
             0 => {
-                let kind = rng.pick(REQ_KINDS).to_string();
+                // one request in forty is for something the server does not implement
+                let kind = if rng.chance(1, 40) {
+                    "textDocument/foldingRange".to_string()
+                } else {
+                    rng.pick(REQ_KINDS).to_string()
+                };
                 let roll = rng.below(100);
                 let open: Vec<String> = buffers.keys().cloned().collect();
                 let file = if roll < 70 && !open.is_empty() {
@@ -1604,6 +1623,12 @@ pub fn gen_history(seed: u64, k: u64, max_events: usize) -> History {
                     "textDocument/references" => rng.pick(&["", "nodecl"][..]).to_string(),
                     _ => String::new(),
                 };
+                // ... and one in thirty gets its parameters wrong
+                let extra = if rng.chance(1, 30) {
+                    rng.pick(&["malformed:empty", "malformed:null", "malformed:types", "malformed:negative", "malformed:uri"][..]).to_string()
+                } else {
+                    extra
+                };
 let writer = matches!(kind.as_str(), "textDocument/rename" | "textDocument/formatting" | "textDocument/onTypeFormatting" | "textDocument/codeLens" | "textDocument/completion" | "textDocument/prepareRename");
                 let e = Ev::Req { kind, file: file.clone(), line, col, extra, pos_kind };
                 past_requests.push(e.clone());
@@ -1628,6 +1653,28 @@ let writer = matches!(kind.as_str(), "textDocument/rename" | "textDocument/forma
                 }
                 let file = rng.pick(&open).clone();
                 let cur = buffers[&file].clone();
+                // "sandwich": a question about ANOTHER file of the project just before this edit, and the same question
+                // again just after it - answers that depend on more than the document they are about (lenses of a test
+                // whose file imports this one, symbols, tokens) must follow
+                let sandwich: Option<Ev> = if rng.chance(1, 5) {
+                    let others: Vec<&str> = lc::FILES.iter().cloned().filter(|f| *f != file).collect();
+                    let y = rng.pick(&others).to_string();
+                    let ycur = buffers.get(&y).cloned().or_else(|| model_disk.get(&y).cloned().flatten());
+                    let kind = rng
+                        .pick(&["textDocument/codeLens", "textDocument/codeLens", "textDocument/documentSymbol", "textDocument/semanticTokens/full", "textDocument/hover", "textDocument/definition", "textDocument/references", "workspace/symbol"][..])
+                        .to_string();
+                    let (line, col, pos_kind) = gen_position(&mut rng, ycur.as_deref(), None);
+                    Some(Ev::Req { kind, file: y, line, col, extra: String::new(), pos_kind })
+                } else {
+                    None
+                };
+                if let Some(e) = &sandwich {
+                    // (a request may not follow a disk event directly)
+                    if !matches!(events.last(), Some(Ev::Disk { .. })) {
+                        past_requests.push(e.clone());
+                        events.push(e.clone());
+                    }
+                }
                 let new_texts: Vec<String> = match choice {
                     1 => vec![lc::mutate(&mut rng, &cur)],
                     2 => vec![rng.pick(lc::variants_of(&file)).to_string()],
@@ -1664,8 +1711,11 @@ let writer = matches!(kind.as_str(), "textDocument/rename" | "textDocument/forma
                         });
                     }
                 }
+                if let Some(e) = sandwich {
+                    events.push(e);
+                }
                 if !past_requests.is_empty() && rng.chance(w_repeat, 12) {
-                    let e = rng.pick(&past_requests).clone();
+                    let e = pick_earlier_request(&mut rng, &past_requests);
                     events.push(e);
                 }
             }
@@ -1795,6 +1845,23 @@ let writer = matches!(kind.as_str(), "textDocument/rename" | "textDocument/forma
         toml,
         events,
     }
+}
+
+/// An earlier request to repeat: one of the distinct (kind, document) pairs asked so far, each equally likely (so a
+/// kind that is asked rarely is repeated as readily as a common one), in its latest form.
+fn pick_earlier_request(rng: &mut Rng, past: &[Ev]) -> Ev {
+    let mut latest: BTreeMap<(String, String), &Ev> = BTreeMap::new();
+    for e in past {
+        if let Ev::Req { kind, file, .. } = e {
+            latest.insert((kind.clone(), file.clone()), e);
+        }
+    }
+    let keys: Vec<&(String, String)> = latest.keys().collect();
+    if keys.is_empty() {
+        return rng.pick(past).clone();
+    }
+    let k = keys[rng.below(keys.len())].clone();
+    latest[&k].clone()
 }
 
 fn legal(events: &[Ev]) -> bool {
